@@ -201,6 +201,37 @@ class CFG:
                 work.append(t)
         return True
 
+    def noreturn_blocks(self):
+        """blocks that end in a call that does not return (failed assertion)"""
+        if getattr(self, '_noret', None) is None:
+            nr = set()
+            for b, blk in self.blocks.items():
+                for s in blk['stmts']:
+                    if any(n[0] == 'call' and sx.callee_name(n) in ('celt_fatal', 'abort', '__assert_fail', 'exit') for n in sx.walk(s)):
+                        nr.add(b)
+            self._noret = nr
+        return self._noret
+
+    def must_pass_live(self, frm, to_set, through):
+        """must_pass ignoring paths that die in a failed assertion"""
+        nr = self.noreturn_blocks()
+        seen = {frm}
+        work = [frm]
+        if frm in through:
+            return True
+        while work:
+            n = work.pop()
+            if n in to_set:
+                return False
+            if n in nr:
+                continue
+            for t in self.succ.get(n, []):
+                if t in through or t in seen:
+                    continue
+                seen.add(t)
+                work.append(t)
+        return True
+
     def reachable_cutting(self, start, cut_edges):
         """blocks reachable from `start` without traversing any edge in cut_edges"""
         seen = {start}
